@@ -185,7 +185,7 @@ func mutateDeb(r *hx.Rand, v debVer) debVer {
 	default:
 		if len(*part) > 0 {
 			i := r.Intn(len(*part))
-			(*part)[i].num = bumpDigits(r, (*part)[i].num)
+			(*part)[i].num = bumpDigits(r, (*part)[i].num, genDebDigits)
 			if len((*part)[i].num) > 18 {
 				(*part)[i].num = (*part)[i].num[:18]
 			}
